@@ -16,4 +16,4 @@ Quantified over: {p['quantifier']['text']}
 
 TASK: produce TWO independent, realistic code changes to the library (each a separate small patch against the worktree's HEAD, of the kind a maintainer might introduce by mistake during a refactor, clean-up or "optimisation"), each of which BREAKS this property while (a) the package still imports and (b) the existing test-suite still passes: `cd {wt} && PYTHONPATH={wt}/src /venv/bin/python -m pytest -q -p no:cacheprovider --timeout=900 tests` (88 tests pass on the unmodified code; the machine is shared and heavily loaded: ALWAYS export OMP_NUM_THREADS=1 MKL_NUM_THREADS=1 before running python or pytest and call torch.set_num_threads(1) in your scripts, otherwise runs can hang for many minutes). Prefer changes that need something SPECIFIC to manifest - an unusual but valid input (a particular size parity, an anisotropic AND rotated grid, align_corners=False, batch size > 1, a particular argument form or dtype), a multi-step sequence of operations, or two cooperating sites that each look fine alone - rather than changes that ordinary use would expose at once. The two changes must differ in kind and location. First check with a small script that the behaviour you are about to break is actually correct on the unmodified code (the library has bugs of its own in untested paths; do not build on one).
 
-For each change i in {{1, 2}} deliver in {wt}_out/<i>/: `patch.diff` (output of `git diff` in the worktree with ONLY that change applied), `demo.py` (a small stand-alone program that exits 0 and prints PASS on the unmodified code and exits 1 and prints FAIL with the change applied - run it both ways yourself with PYTHONPATH set), and `meta.json` with keys "property" ("{pid}"), "what" (one-line description of the change), "needs" (what is needed for it to manifest), "ran" (the commands you ran and their outcomes: test-suite passed with the change, demo fails with / passes without). Leave the worktree clean (`git checkout -- .`) when done. Finish with a brief report (what each change is, where, what it needs to manifest).""")
+For each change i in {{1, 2}} deliver in {wt}_out/<i>/: `patch.diff` (output of `git diff` in the worktree with ONLY that change applied), `demo.py` (a small stand-alone program that exits 0 and prints PASS on the unmodified code and exits 1 and prints FAIL with the change applied - run it both ways yourself with PYTHONPATH set), and `meta.json` with keys "property" ("{pid}"), "what" (one-line description of the change), "needs" (what is needed for it to manifest), "ran" (the commands you ran and their outcomes: test-suite passed with the change, demo fails with / passes without). Never use `git stash` (the stash is shared between all worktrees of the repository; other people work in sibling worktrees) - save your diff to a file and use `git apply` / `git apply -R` / `git checkout -- .` instead. Leave the worktree clean (`git checkout -- .`) when done. Finish with a brief report (what each change is, where, what it needs to manifest).""")
